@@ -61,7 +61,17 @@ def c14(tier):
         trusted=["bridge op 'params' in both mains; analyzer flag set + VerifPrepare; go/types Sizes and a compiled unsafe.Sizeof program as references for sizes"])
 
 
-CHECKS = {"C06": c06, "C14": c14, "C15": c15, "C16": c16, "C19": c19}
+def c17(tier):
+    vlib.standard(
+        "C17", tier, "c17", ["Properties_C17.v", "Proofs_IR.v"],
+        assume=[
+            "the fresh IR is produced in-process by the same steps as checkers/rules/precompile.go (parse, type-check with the source importer, irconv.ConvertFile); the repository's own generator is additionally run and its output compared byte for byte",
+            "how the ruleguard IR loader interprets the IR is outside this property",
+        ],
+        trusted=["translator vh gen ir (reflection walk of *ir.File into generic trees; registry documentation fields; docs/overview.md rows; `go-critic doc` output)"])
+
+
+CHECKS = {"C06": c06, "C14": c14, "C17": c17, "C15": c15, "C16": c16, "C19": c19}
 
 
 def run(prop, tier):
